@@ -29,18 +29,91 @@ theorem findCrlf_split {b : Bytes} {i : Nat} (h : findCrlf b = some i) :
         unfold findCrlf
         rw [if_neg hc, h2]; rfl
 
+theorem headerStep_done_crlf {limit : Option Nat} {rest : Bytes} (h : headerStep limit rest = .ok .done) :
+    rest.take 2 = CRLF := by
+  unfold headerStep at h
+  by_cases hr : rest = []
+  · simp [hr] at h
+  · rw [if_neg hr] at h
+    cases hf : findCrlf rest with
+    | none => simp only [hf] at h; split at h <;> simp at h
+    | some i =>
+      simp only [hf] at h
+      split at h
+      · simp at h
+      · split at h
+        · rename_i hi; subst hi
+          have := (findCrlf_split hf).1
+          rw [this]; simp [CRLF]
+        · split at h
+          · simp at h
+          · rename_i name v0 _
+            cases hu : unfold (rest.length + 1) (rest.drop (i + 2)) v0 0 with
+            | error e => simp [hu, finishField] at h
+            | ok o => cases o with
+              | none => simp [hu, finishField] at h
+              | some p => obtain ⟨v, n⟩ := p; simp [hu, finishField] at h
+
+/-- a header block that the parser reports complete ends — at the point where the parser stopped — in CRLF -/
+theorem parseLoop_complete_crlf {limit : Option Nat} {f : Nat} {hs hs' : List Header} {rest : Bytes} {off c : Nat}
+    (h : parseLoop limit f hs rest off = .ok (hs', .complete, c)) :
+    off + 2 ≤ c ∧ (rest.drop (c - off - 2)).take 2 = CRLF := by
+  induction f generalizing hs rest off with
+  | zero => simp [parseLoop] at h
+  | succ f ih =>
+    unfold parseLoop at h
+    cases hstep : headerStep limit rest with
+    | error e => simp [hstep] at h
+    | ok st =>
+      cases st with
+      | more => simp [hstep] at h
+      | done =>
+        simp only [hstep, Except.ok.injEq, Prod.mk.injEq, true_and] at h
+        obtain ⟨_, rfl⟩ := h
+        refine ⟨by omega, ?_⟩
+        rw [show off + 2 - off - 2 = 0 by omega]
+        simpa using headerStep_done_crlf hstep
+      | field hd n =>
+        simp only [hstep] at h
+        obtain ⟨h1, h2⟩ := ih h
+        have hb := headerStep_field_bounds hstep
+        refine ⟨by omega, ?_⟩
+        rw [List.drop_drop] at h2
+        rw [show c - off - 2 = n + (c - (off + n) - 2) by omega]
+        exact h2
+
+theorem Headers.parse_complete_last {limit : Option Nat} {hs hs' : List Header} {raw : Bytes}
+    (h : Headers.parse limit hs raw = .ok (hs', .complete, raw.length)) : raw.getLast? = some LF := by
+  unfold Headers.parse at h
+  obtain ⟨h1, h2⟩ := parseLoop_complete_crlf h
+  simp only [Nat.sub_zero] at h2
+  have hsplit : raw = raw.take (raw.length - 2) ++ raw.drop (raw.length - 2) := (List.take_append_drop _ _).symm
+  have hlen : (raw.drop (raw.length - 2)).length = 2 := by simp; omega
+  have : raw.drop (raw.length - 2) = CRLF := by
+    rw [← h2, List.take_of_length_le (by omega)]
+  rw [hsplit, this]
+  simp [CRLF]
+
 /-- a complete header block is recognised from its own bytes: cutting the input where the parser
-    stopped does not change the answer -/
-theorem Headers.parse_cut {hs hs' : List Header} {rem : Bytes} {k : Nat}
-    (h : Headers.parse none hs rem = .ok (hs', .complete, k)) :
-    Headers.parse none hs (rem.take k) = .ok (hs', .complete, k) ∧ k ≤ rem.length := by
+    stopped does not change the answer (any line limit) -/
+theorem Headers.parse_cut {limit : Option Nat} {hs hs' : List Header} {rem : Bytes} {k : Nat}
+    (h : Headers.parse limit hs rem = .ok (hs', .complete, k)) :
+    Headers.parse limit hs (rem.take k) = .ok (hs', .complete, k) ∧ k ≤ rem.length := by
   have hk : k ≤ rem.length := by
     have := parseLoop_consumed (by unfold Headers.parse at h; exact h); omega
   refine ⟨?_, hk⟩
   have hsplit : rem = rem.take k ++ rem.drop k := (List.take_append_drop k rem).symm
-  cases hp : Headers.parse none hs (rem.take k) with
+  -- the block ends in CRLF, so nothing straddles the cut
+  have hlastLF : (rem.take k).getLast? = some LF := by
+    obtain ⟨h1, h2⟩ := parseLoop_complete_crlf (by unfold Headers.parse at h; exact h)
+    simp only [Nat.sub_zero] at h2
+    have e1 : rem.take k = rem.take (k - 2) ++ (rem.drop (k - 2)).take 2 := by
+      rw [show k = (k - 2) + 2 by omega, List.take_add]; simp
+    rw [e1, h2]; simp [CRLF]
+  have hnoCR : (rem.take k).getLast? ≠ some CR := by rw [hlastLF]; simp [LF, CR]
+  cases hp : Headers.parse limit hs (rem.take k) with
   | error e =>
-    obtain ⟨e', he'⟩ := Headers.parse_append_error hp (rem.drop k) (Or.inl rfl)
+    obtain ⟨e', he'⟩ := Headers.parse_append_error hp (rem.drop k) (Or.inr (Or.inl hnoCR))
     rw [← hsplit, h] at he'; cases he'
   | ok r =>
     obtain ⟨hs1, st, c⟩ := r
@@ -53,7 +126,11 @@ theorem Headers.parse_cut {hs hs' : List Header} {rem : Bytes} {k : Nat}
       exfalso
       obtain ⟨hc, happ⟩ := Headers.parse_append_incomplete hp (rem.drop k)
       rw [← hsplit, h] at happ
-      cases hr : Headers.parse none hs1 ((rem.take k).drop c ++ rem.drop k) with
+      have hsuf : ((rem.take k).drop c).getLast? ≠ some CR := by
+        rw [List.getLast?_drop]; split
+        · simp
+        · exact hnoCR
+      cases hr : Headers.parse limit hs1 ((rem.take k).drop c ++ rem.drop k) with
       | error e => rw [hr] at happ; simp [shiftConsumed] at happ
       | ok r2 =>
         obtain ⟨hs2, st2, n⟩ := r2
@@ -62,7 +139,7 @@ theorem Headers.parse_cut {hs hs' : List Header} {rem : Bytes} {k : Nat}
         obtain ⟨rfl, rfl, rfl⟩ := happ
         have hm := parseLoop_incomplete_more (by unfold Headers.parse at hp; exact hp) (Nat.le_refl _)
         simp only [Nat.sub_zero] at hm
-        have hgt := parseLoop_complete_gt hm (by unfold Headers.parse at hr; exact hr) (Or.inl rfl)
+        have hgt := parseLoop_complete_gt hm (by unfold Headers.parse at hr; exact hr) (Or.inr (Or.inl hsuf))
         simp only [Nat.zero_add, List.length_drop, List.length_take] at hgt hc
         omega
 
